@@ -811,7 +811,6 @@ def Commandable(
                     relinquishDefault,
                     kwargs,
                 )
-            super(_Commando, self).__init__(**kwargs)
 
             # build a default value in case one is needed
             if issubclass(datatype, Atomic):
@@ -825,9 +824,12 @@ def Commandable(
                 Commandable._debug("    - default_value: %r", default_value)
 
             # see if a present value was provided, with nothing commanded yet
-            # it is the relinquish default
+            # it is the relinquish default; it is an initial value like the
+            # others, not a change that the other mix-ins should react to
             if presentValue not in kwargs:
-                setattr(self, presentValue, kwargs.get(relinquishDefault, default_value))
+                kwargs[presentValue] = kwargs.get(relinquishDefault, default_value)
+
+            super(_Commando, self).__init__(**kwargs)
 
             # see if a priority array was provided
             if priorityArray not in kwargs:
